@@ -14,6 +14,7 @@ mod sched;
 mod alpha;
 mod mc;
 mod points;
+mod polyroots;
 mod toy;
 mod wire;
 mod toymodel;
